@@ -109,6 +109,7 @@ def t_boolean : Bytes := [98, 111, 111, 108, 101, 97, 110]
 def t_null : Bytes := [110, 117, 108, 108]
 def t_true : Bytes := [116, 114, 117, 101]
 def t_false : Bytes := [102, 97, 108, 115, 101]
+def t_comment : Bytes := [99, 111, 109, 109, 101, 110, 116]
 /-- the raw tokens `"mixed"` and `"enum"` (quotes included): `orConstraint` / `enumConstraint` compare the RAW value -/
 def q_mixed : Bytes := [34, 109, 105, 120, 101, 100, 34]
 def q_enum : Bytes := [34, 101, 110, 117, 109, 34]
@@ -163,10 +164,11 @@ def parseUint (b : Bytes) : Option Nat :=
   if b.isEmpty || !b.all isDigit then none
   else some (b.foldl (fun u c => (u * 10 + (c.toNat - 48)) % 18446744073709551616) 0)
 
-/-- `NewAdditionalProperties`: "any" / "true" / "false", a user type name, or a name `IsValidType` knows -/
+/-- `NewAdditionalProperties`: "any" / "true" / "false", a user type name, or a name `IsValidType` knows (the names a
+`type` rule takes and `comment`: found by the run-time bridge against `Compile.parseAdd`, settled by the real library) -/
 def addPropsOK (tok : Bytes) : Bool :=
   let u := Unquote.unquote tok
-  u = t_true || u = t_false || TyName.ofBytes u != .unknown
+  u = t_true || u = t_false || u = t_comment || TyName.ofBytes u != .unknown
 
 /-! ### constraints -/
 
